@@ -484,10 +484,6 @@ def region(op, desc):
             parts.append('{}={}'.format(k, opts[k]))
     if 'naxes' in opts:
         parts.append('naxes=' + ('1' if opts['naxes'] == 1 else 'multi'))
-    ran = op.range
-    if isinstance(ran, odl.DiscretizedSpace) and ran.ndim >= 2 and \
-            ran.shape[0] == 1 and max(ran.shape[1:]) > 1:
-        parts.append('ranlead1')
     return ','.join(parts)
 
 
@@ -1360,6 +1356,11 @@ def _resampling(o):
         o.pick('i%d' % i, ('nearest', 'linear')) for i in range(nd)]
     how = o.pick('how', ('op', 'op', 'inverse', 'adjoint'))
     rnob = o.flag('ran_nob')
+    if o.pick('intvalues', (False, False, False, False, True)):
+        # integer value arrays (interpolation of those: F17 of C15)
+        sd = dict(sd, dtype='int64')
+        o.dom = 'int'
+        o.opts['dtype'] = 'int'
 
     def mk():
         sp = B(sd)
@@ -1401,12 +1402,6 @@ def _resizing(o):
     give = o.pick('give', ('ran_shp', 'ran_shp+offset', 'range'))
     how = o.pick('how', ('op', 'op', 'adjoint', 'derivative', 'adjadj'))
     nob = o.flag('discr_nob')
-    if nob and give == 'ran_shp' and how == 'derivative':
-        # (ResizingOperator.derivative rebuilds the operator from domain and
-        # range and rejects a range made with nodes_on_bdry: a constructor
-        # matter of C16/C06, not of the call protocol)
-        how = 'op'
-
     def mk():
         sp = B(sd)
         kw = {'pad_mode': pm}
@@ -1780,14 +1775,12 @@ def _dft(o):
     real = not _is_cplx(sd)
     impl = o.pick('impl', ('numpy', 'pyfftw'))
     axes = _axes_pick(o, nd)
-    hc = o.flag('halfcomplex') if real else False
-    sign = o.pick('sign', ('-', '-', '+')) if not hc else '-'
+    hc = o.flag('halfcomplex')      # documented: no effect on complex domains
+    sign = o.pick('sign', ('-', '-', '+')) if not (hc and real) else '-'
     how = o.pick('how', ('op', 'op', 'inverse', 'adjoint', 'invinv'))
     if real and not hc:
-        # F19 (C18): the r2c variant is wrong on pyfftw, its inverse raises
+        # C18-F19b (known): the inverse of the r2c variant cannot be applied
         how = 'op'
-        impl = 'numpy'
-        o.opts['impl'] = impl
     plan = o.flag('plan') and impl == 'pyfftw'
     f32 = o.flag('f32')
     o.opts['naxes'] = nd if axes is None else len(axes)
@@ -1819,8 +1812,8 @@ def _dft_inv(o):
     real = not _is_cplx(sd)
     impl = o.pick('impl', ('numpy', 'pyfftw'))
     axes = _axes_pick(o, nd)
-    hc = True if real else False
-    sign = '+' if hc else o.pick('sign', ('+', '+', '-'))
+    hc = True if real else o.flag('hc')
+    sign = '+' if real else o.pick('sign', ('+', '+', '-'))
     o.opts['naxes'] = nd if axes is None else len(axes)
     o.opts['halfcomplex'] = hc
     o.opts['parity'] = 'odd' if sd['shape'][
@@ -1841,18 +1834,23 @@ def _ft(o):
     real = not _is_cplx(sd)
     impl = o.pick('impl', ('numpy', 'pyfftw'))
     axes = _axes_pick(o, nd)
-    # F30 (C18): real domains need halfcomplex=True and shift=True
-    hc = True
-    shift = True
-    if not real:
-        sk = o.pick('shiftk', ('true', 'false', 'mixed'))
-        na = nd if axes is None else len(axes)
-        shift = {'true': True, 'false': False}.get(sk)
-        if shift is None:
-            shift = [bool((i + o.pick('shift0', st.integers(0, 1))) % 2)
-                     for i in range(na)]
-    sign = o.pick('sign', ('-', '-', '+')) if not real else '-'
+    na = nd if axes is None else len(axes)
+    hc = o.flag('halfcomplex')
+    sk = o.pick('shiftk', ('true', 'true', 'false', 'mixed'))
+    shift = {'true': True, 'false': False}.get(sk)
+    if shift is None:
+        shift = [bool((i + o.pick('shift0', st.integers(0, 1))) % 2)
+                 for i in range(na)]
+    if real and hc and shift is not True:
+        # documented: the halved (last transformed) axis must be shifted;
+        # C18-F30b (known): an unshifted other axis gives wrong / failing
+        # half-complex transforms
+        shift = True
+    sign = o.pick('sign', ('-', '-', '+')) if not (real and hc) else '-'
     how = o.pick('how', ('op', 'op', 'inverse', 'adjoint', 'invinv'))
+    if real and not hc and shift is not True and impl == 'pyfftw':
+        # C18-F30a (known): the inverse of this variant raises
+        how = 'op'
     tmps = o.pick('tmps', ('none', 'none', 'create', 'plan'))
     o.opts['naxes'] = nd if axes is None else len(axes)
     o.opts['halfcomplex'] = hc and real
@@ -2837,6 +2835,7 @@ def get_view_pool():
     return pool
 
 
+VIEW_FALLBACK = ['FlatteningOperator', 'RealPart', 'ImagPart']
 VIEW_EXPR_KINDS = ['sum-left', 'sum-right', 'sum-self', 'vecsum', 'vecdiff',
                    'lscal', 'rscal', 'lvec', 'rvec', 'pwprod', 'neg', 'div',
                    'comp-outer', 'comp-inner', 'comp-inner-vecsum',
@@ -2855,7 +2854,10 @@ def _expr_view(o):
     """Expression classes around an operand whose out-of-place result is a
     view of (or identical to) its argument: an expression class that
     accumulates into what an operand returned overwrites the caller's x."""
-    name = o.pick('operand', get_view_pool() if o.draw is not None else ())
+    # (should no catalogued operator return views any more, the historical
+    # candidates keep the expression classes exercised)
+    name = o.pick('operand', (get_view_pool() or VIEW_FALLBACK)
+                  if o.draw is not None else ())
     c = o.child('v')
     vthunk = ENTRIES[name].func(c)
     k = o.pick('kind', VIEW_EXPR_KINDS)
